@@ -241,8 +241,8 @@ func (g *streamGen) value(depth int, keyableOnly bool, allowNull bool) {
 		// marked object: anything but marker/ref/null-ness is allowed by rules ("marker+null" is accepted in
 		// most places but not as edge source/destination), keep it non-null.
 		save := len(g.out)
+		// (valueNoMarker never puts a marker or a reference directly on the marked object; objects nested in it may carry their own)
 		mk, rr := g.o.Markers, g.o.RemoteRef
-		g.o.Markers = false   // no marker directly on a marker/ref
 		g.o.RemoteRef = false // the validator does not allow a remote reference as a marked object (don't-care in the property)
 		g.valueNoMarker(depth, canNest, false)
 		g.o.Markers, g.o.RemoteRef = mk, rr
@@ -1028,7 +1028,7 @@ func (g *streamGen) list(depth int) {
 		g.emit(ev.Event{K: ev.MARK, B: []byte(id)})
 		save := len(g.out)
 		mk, rr := g.o.Markers, g.o.RemoteRef
-		g.o.Markers, g.o.RemoteRef = false, false
+		g.o.RemoteRef = false
 		g.valueNoMarker(depth+1, depth+1 < g.o.MaxDepth, false)
 		g.o.Markers, g.o.RemoteRef = mk, rr
 		g.markers = append(g.markers, markerInfo{id, isKeyableKind(g.out[save])})
